@@ -13,6 +13,7 @@ import HaqqModel.Driver.C14
 import HaqqModel.Driver.C07
 import HaqqModel.Driver.C08
 import HaqqModel.Driver.C05
+import HaqqModel.Driver.C04
 
 open Haqq.Driver
 
@@ -37,6 +38,7 @@ def stepLine (st : All) (line : String) : All × String :=
   | "C08" :: rest => (st, C08.step rest)
   | "C05" :: rest => let (s, o) := C05.step st.c05 rest; ({ st with c05 := s }, o)
   | "C02" :: rest => let (s, o) := C05.step st.c05 rest; ({ st with c05 := s }, o)
+  | "C04" :: rest => (st, C04.step rest)
   | "C13" :: rest => let (s, o) := C13.step st.c13 rest; ({ st with c13 := s }, o)
   | _ => (st, "bad-op")
 
